@@ -52,6 +52,98 @@ CLAIMS = {
         tech="Lean 4 proof (abstract interpreter over token kinds + simulation theorem, per-rule contracts by mutual structural recursion) "
              "over a grammar table regenerated from the documentation + differential correspondence + Earley oracle",
         ref="DESIGN.md §7 C04, §12.5"),
+    "C03": dict(
+        text="Lean theorems on the model of crates/ide in which every Rust panic site is an explicit error value: "
+             "index_never_panics (for EVERY workspace built from any file map, root and include dir the indexer returns a result: "
+             "arena ids stay valid - IdsOK -, the scope stack keeps a non-defset scope, the file trace is never empty, the "
+             "'outside of record' panics and unreachable!() of the bang operators are unreachable, the fuel of the recursion "
+             "knot suffices), analysis_total (all nine handlers answer for every file and offset; completion needs offset <= "
+             "length, past it rowan's 'Bad offset' panic is real and exhibited), built_ready (the tree-shape facts the proofs need "
+             "hold for every parser output, by a verified abstract interpreter over the parser DSL + kernel evaluation). Checks: "
+             "model vs implementation on the `ws` streams (panic behaviour included); the sweep - every query kind at every "
+             "character boundary of every file, inlay hints for all sub-ranges - over stress patterns (self/mutual references, "
+             "redefinitions, shadowing), generated programs, their prefixes and token mutations, non-ASCII/CRLF injection, "
+             "include chains/diamonds/includes inside blocks, bounded deep nesting and the corpus must not panic, crash or hang.",
+        note="Stack overflow, salsa and rowan internals are not modelled (nesting depth is measured up to 1000, not proved); record "
+             "ids carried inside Ty.record values are not tracked by the invariant (they are [id]! lookups, not panic values, in "
+             "the model). Include cycles are allowed (the property excludes them; the repaired code handles them).",
+        tech="Lean 4 proof (invariant preserved by every one of ~100 indexer functions, Hoare-style over StateT/Except) + "
+             "differential correspondence + exhaustive-offset sweep on the implementation",
+        ref="DESIGN.md §7 C03, §12"),
+    "C05": dict(
+        text="Lean theorems on the scope machinery of the indexer model: findLocal_innermost / findLocal_eq (lookup walks the scopes "
+             "innermost first; within a scope: variable, then field, then template argument), insertVariable_spec + "
+             "findLocal_insertVariable_self/_other (a declaration shadows outer ones and nothing else), pop_insertVariable_push / "
+             "findLocal_after_block (after a block has ended every name resolves as before it: what the block declared is gone), "
+             "if/let/foreach/class/def/defm/multiclass/!foreach/!filter/!foldl_balanced (each construct leaves the scope stack as "
+             "it found it; foreach/def/defm under the stated body-node condition, with foreach_without_body_leaks as the "
+             "counter-example when it is missing), resolveId_run (locals, then defs, then defsets), identifier_not_found / "
+             "identifier_found ('symbol not found' exactly when resolution fails). Checks: model vs implementation incl. the "
+             "symbol-map operation log; the scope-tracking generator (use -> declaration map known by construction, audited "
+             "against llvm-tblgen): go-to-definition and hover at every use and declaration, find-references at every "
+             "declaration, deliberate out-of-scope uses must not resolve and must be reported.",
+        note="Partial: the balanced lemmas assume RecScoped for the recursive calls (not discharged globally for mkRec); the link "
+             "from 'the indexer visits this use with these scopes' to the generator's expectation is the oracle, not a theorem. "
+             "Known findings: body `let` overrides create a second field symbol (2 signatures).",
+        tech="Lean 4 proof (algebraic laws of the scope stack + Hoare triples per block construct) + differential correspondence + generator oracle",
+        ref="DESIGN.md §7 C05, §12.7"),
+    "C13": dict(
+        text="Lean theorems on the decision logic of the diagnostics: canBeCastedTo_iff (the implemented cast relation equals an "
+             "inductive relation Castable, read off as a case list; reflexive), checkTemplateArgs_run + too_many_arguments / "
+             "value_not_specified / positional_type_error / named_type_error / named_rebound (template-argument checking reports "
+             "exactly: more values than parameters; parameters without default bound neither positionally nor by name; values "
+             "whose type cannot be cast), expectValues_contract (arity checks of the bang operators report iff the operand count is "
+             "outside the allowed interval). Checks: model vs implementation on every bang-operator arm with right/wrong arity, "
+             "types and annotations; generator oracle: well-typed programs of the core produce no diagnostic at all, every "
+             "single seeded fault of the eleven listed classes is reported with a range covering the seeded site and nothing is "
+             "reported in files the fault does not touch (unreported faults count only if llvm-tblgen rejects the program).",
+        note="Partial: soundness/completeness of the whole diagnostic pass is decided by the oracle; the theorems cover the typing "
+             "relation and the two generic checkers. Known findings: top-level `let f = v in` checks neither field name nor type.",
+        tech="Lean 4 proof (decision logic stated outright: iff-characterisations) + differential correspondence + fault-seeding oracle audited by llvm-tblgen",
+        ref="DESIGN.md §7 C13, §12.7"),
+    "C17": dict(
+        text="Lean theorems on the model of crates/ide for arbitrary (non-ASCII, malformed) input: ofTree_ranges_valid / "
+             "parse_ranges_valid (every node and token range of a parse tree is a pair of character boundaries of the file "
+             "content with start <= end), index_locs_valid (invariant LocsOK through all ~100 indexer functions: every location "
+             "stored in an arena entry, the operation log or a diagnostic is the range of a node or token of the tree of the "
+             "workspace file it names), and per handler diagnostics_/gotoDefinition_/references_/foldingRange_/documentLink_/"
+             "documentSymbol_ranges_valid and inlayHint_positions_valid: every range of every answer names a workspace file and "
+             "is valid in that file. The document-symbol theorem could not be closed at first: the proof exposed a genuine "
+             "defect (a def reaching a defset through an include was outlined with a range of the other file), repaired in "
+             "293f0c4. Checks: model vs implementation; every range of every result of the sweep over the C03 workspace "
+             "space (plus non-ASCII prefixes, CR/CRLF, block-includes with long included files) judged against the texts.",
+        note="Ranges are byte offsets; conversion to LSP positions is C09/C10. start <= end of folding/link ranges relies on the "
+             "parser-shape fact 'no node starts with trivia' (proved for parser output).",
+        tech="Lean 4 proof (tree lemma + invariant over the indexer + handler lemmas) + differential correspondence + range oracle on the implementation",
+        ref="DESIGN.md §7 C17, §12.3"),
+    "C18": dict(
+        text="Lean theorems: folding_ranges_one_per_statement (the folding ranges of a file are exactly the trivia-trimmed ranges of "
+             "its class/def/defset/foreach/if/let/multiclass nodes, in document order, one each), folding_range_spec (start = "
+             "start of the node, end = end of its last non-trivia token), folding_ranges_nested_or_disjoint, "
+             "document_symbols_exact / recordToDocumentSymbol_spec / outlineOf_defset / outlineOf_multiclass (the outline is "
+             "exactly the file's symbol list filtered to classes, named defs, defsets and multiclasses, each with kind, name, "
+             "range of the declaring identifier, and children: template arguments then fields; defs of a defset under the "
+             "defset). Checks: model vs implementation; generator oracle with expected outline and folding ranges known by "
+             "construction (nesting in foreach/if/let/defset/multiclass, optional parts present/absent, several files).",
+        note="Partial: 'in source order' is proved as 'insertion order of the indexer', its equality with source order is decided by "
+             "the oracle; an empty node (e.g. the empty ParentClassList of `class A;`) cuts rowan's prev_token chain, the "
+             "folding spec is stated on the model's own chain.",
+        tech="Lean 4 proof (flat token theory of the annotated tree + handler specs) + differential correspondence + generator oracle",
+        ref="DESIGN.md §7 C18, §12.7"),
+    "C19": dict(
+        text="Lean theorems: inlay_hints_inside_request + inlay_hints_complete (the answer for a range is exactly the hints of the "
+             "file positioned inside it), positional_arg_hint / template_arg_hint (the k-th positional argument of a class or "
+             "multiclass reference gets the k-th parameter name at the argument's first byte), inlayHintRecordField_spec (a field "
+             "override gets ':type' at the end of the field name), hover_goto_agree / goto_hover_agree (hover shows the signature "
+             "of exactly the symbol go-to-definition jumps to; via new_coherent, which also proves the array implementation of "
+             "the position map equal to the specification), doc_comments_spec with docLines (the doc text is exactly the "
+             "maximal alternation of [whitespace with one newline][// comment] before the declaration, leading slashes and "
+             "blanks removed, in source order). Checks: model vs implementation; generator oracle for hover signature, doc text "
+             "(10 comment layouts per declaration kind) and hints (full range, ranges around every hint position, random ranges).",
+        note="Trailing comment of the previous code line directly above a declaration: either answer accepted (ambiguous in the "
+             "property text).",
+        tech="Lean 4 proof (handler specs, refinement of the fast position map to its specification) + differential correspondence + generator oracle",
+        ref="DESIGN.md §7 C19, §12.7"),
     "C06": dict(
         text="Lean theorems on the SymbolMap model for ARBITRARY operation logs (so also for malformed programs): "
              "cursor_is_target_or_reference (unconditional), goto_from_references_agrees (under RefStable + DisjointLocs), "
